@@ -11,7 +11,7 @@ namespace Unc
 
 /-- Kill the process before, during (torn write) or after any call of any in-place run: the target
     holds the complete original or the complete formatted bytes. -/
-theorem C13_crash_atomic (mode : FsMode) (F : Bytes → FmtRes) (h : Bytes → Bytes) (f0 : FS) (orig : Bytes)
+theorem C13_crash_atomic (mode : FsMode) (F : FBytes → FmtRes) (h : FBytes → FBytes) (f0 : FS) (orig : FBytes)
     (h0 : f0.target = some orig) :
     ∀ g, CrashFrom f0 (doSourceFile Fix.fixed mode F h) g → TargetOK orig (F orig) g := by
   intro g hc
@@ -26,7 +26,7 @@ example : ∃ g, CrashFrom ⟨some [1], none, none, none⟩
 
 /-- … and (unless `--no-backup`) whenever the target no longer holds the original bytes, the backup
     file holds exactly the original bytes. -/
-theorem C13_backup_when_changed (mode : FsMode) (F : Bytes → FmtRes) (h : Bytes → Bytes) (f0 : FS) (orig : Bytes)
+theorem C13_backup_when_changed (mode : FsMode) (F : FBytes → FmtRes) (h : FBytes → FBytes) (f0 : FS) (orig : FBytes)
     (h0 : f0.target = some orig) (hmode : mode ≠ .noBackup) :
     ∀ g, CrashFrom f0 (doSourceFile Fix.fixed mode F h) g → BackupOK h orig f0 g := by
   intro g hc
@@ -42,8 +42,8 @@ example : ∃ g, CrashFrom ⟨some [1], some [5], some [9], none⟩
     FS.set, step, during]
 
 /-- the md5-free case, as C13 literally states it -/
-theorem C13_backup_when_changed_no_md5 (mode : FsMode) (F : Bytes → FmtRes) (h : Bytes → Bytes) (f0 : FS)
-    (orig : Bytes) (h0 : f0.target = some orig) (hmode : mode ≠ .noBackup) (hm : f0.md5 ≠ some (h orig)) :
+theorem C13_backup_when_changed_no_md5 (mode : FsMode) (F : FBytes → FmtRes) (h : FBytes → FBytes) (f0 : FS)
+    (orig : FBytes) (h0 : f0.target = some orig) (hmode : mode ≠ .noBackup) (hm : f0.md5 ≠ some (h orig)) :
     ∀ g, CrashFrom f0 (doSourceFile Fix.fixed mode F h) g → g.target ≠ some orig → g.bak = some orig := by
   intro g hc hne
   rcases C13_backup_when_changed mode F h f0 orig h0 hmode g hc hne with hb | ⟨hm', _⟩
@@ -56,7 +56,7 @@ example : (⟨some [1], none, some [9], some [7]⟩ : FS).md5 ≠ some (id [1]) 
     anywhere: target and backup clauses still hold, and a run in which a call failed (other than
     the two tolerated read-side probes) never exits with status 0.  `F orig = fail st _` is a
     formatting failure, whose status is non-zero by C06. -/
-theorem C13_fault_atomic (mode : FsMode) (F : Bytes → FmtRes) (h : Bytes → Bytes) (f0 : FS) (orig : Bytes)
+theorem C13_fault_atomic (mode : FsMode) (F : FBytes → FmtRes) (h : FBytes → FBytes) (f0 : FS) (orig : FBytes)
     (h0 : f0.target = some orig) (hst : ∀ st p, F orig = .fail st p → st ≠ 0) :
     ∀ o, Reach f0 0 false (doSourceFile Fix.fixed mode F h) o →
       TargetOK orig (F orig) o.fs
@@ -73,7 +73,7 @@ example : ∃ o, Reach ⟨some [1], none, none, none⟩ 0 false
   ⟨_, exec_reach _ _ [.ok, .ok, .ok, .ok, .ok, .err 0] 0 false, by decide⟩
 
 /-- the single-fault and fault-pair instances the check enumerates on the binary -/
-theorem C13_fault_atomic_pairs (mode : FsMode) (F : Bytes → FmtRes) (h : Bytes → Bytes) (f0 : FS) (orig : Bytes)
+theorem C13_fault_atomic_pairs (mode : FsMode) (F : FBytes → FmtRes) (h : FBytes → FBytes) (f0 : FS) (orig : FBytes)
     (h0 : f0.target = some orig) (hst : ∀ st p, F orig = .fail st p → st ≠ 0) :
     ∀ o, Reach f0 0 false (doSourceFile Fix.fixed mode F h) o → o.faults ≤ 2 →
       TargetOK orig (F orig) o.fs ∧ (mode ≠ .noBackup → BackupOK h orig f0 o.fs)
@@ -88,8 +88,8 @@ example : ∃ o, Reach ⟨some [1], none, none, some [7]⟩ 0 false
 
 /-- A formatting failure (any exit inside `uncrustify_file`) leaves the original bytes in place, at
     every instant and under any faults. -/
-theorem C13_fmt_failure_leaves_orig (mode : FsMode) (F : Bytes → FmtRes) (h : Bytes → Bytes) (f0 : FS)
-    (orig : Bytes) (h0 : f0.target = some orig) (st : Nat) (part : Bytes) (hF : F orig = .fail st part) :
+theorem C13_fmt_failure_leaves_orig (mode : FsMode) (F : FBytes → FmtRes) (h : FBytes → FBytes) (f0 : FS)
+    (orig : FBytes) (h0 : f0.target = some orig) (st : Nat) (part : FBytes) (hF : F orig = .fail st part) :
     ∀ o, Reach f0 0 false (doSourceFile Fix.fixed mode F h) o → o.fs.target = some orig := by
   intro o hr
   rcases (reach_doSourceFile mode F h f0 orig h0 o hr).1 with ht | ⟨out, ho, _⟩
